@@ -56,6 +56,16 @@ Definition resolve_include (filename inc : bytes) : result bytes :=
   if negb (contain_test inc_kind root p) then Err IncludeOutside
   else if negb (isfile p) then Err IncludeNotFound
   else Ok p.
+
+(* what the resolution of one include line touches: os.path.isfile(p) once the containment test passed,
+   then open(p) when it is a file; the flag tells whether an exception is raised.  An event is
+   (false, p) for a probe, (true, p) for an open *)
+Definition include_accesses (filename inc : bytes) : list (bool * bytes) * bool :=
+  let root := get_root_include_path filename in
+  let p := include_full_path filename inc in
+  if negb (contain_test inc_kind root p) then ([], true)
+  else if negb (isfile p) then ([(false, p)], true)
+  else ([(false, p); (true, p)], false).
 End Root.
 
 (* ------------------------------------------------------------------ part 2: recogniser and splice *)
